@@ -473,13 +473,18 @@ func (r *Run) c12Layout() {
 	sort.Slice(calls, func(i, j int) bool { return instrBefore(calls[i], calls[j]) })
 	var roles []string
 	okChain := len(calls) == 4
+	// start indices: each group starts where the previous one ended - the index returned by the previous call, or
+	// the same number computed from the group sizes (robust_c12.go)
+	cx := c12NewLinCtx(p, fn, pl)
+	for _, c := range calls {
+		cx.lists = append(cx.lists, c.Common().Args[1])
+	}
+	okChain = okChain && c12ChainedStarts(cx, calls)
 	for i, c := range calls {
 		a := c.Common().Args
 		roles = append(roles, roleOf(a[1]))
-		if i == 0 {
-			okChain = okChain && IsConstIntValue(a[0], 0)
-		} else {
-			okChain = okChain && a[0] == calls[i-1].Value() && a[2] == calls[0].Common().Args[2] && a[3] == calls[0].Common().Args[3]
+		if i > 0 {
+			okChain = okChain && a[2] == calls[0].Common().Args[2] && a[3] == calls[0].Common().Args[3]
 		}
 	}
 	want := []string{"BiasNeuron", "InputNeuron", "OutputNeuron", "HiddenNeuron"}
